@@ -14,6 +14,14 @@
 //! sentinel `S<digits>E` renamed to `T<digits>EE` (run B, other value, other length).
 //! Output: (out "A" "B") — the two logged strings (or `none` when parsing failed).
 //!
+//! Schema family: input objects nested to 4-5 levels, secret fields at every level, enclosing
+//! input types of both kinds (declaring secret fields of their own: Deep, Inner, Cred, Tree, Mixed,
+//! Pick; declaring none: Box3, Box2, LoginRequest, Chain, Either) in every alternation, lists and
+//! lists of lists of them, oneof input objects, secret fields whose own type is an input object,
+//! recursive input types; as arguments of root, nested-object, interface and subscription fields.
+//! (A printer that looks for secret fields only in the input type at hand, not below it, is
+//! noticed through LoginRequest / Box2 / Box3 / Chain / Either: corpus/C21/nested.case.)
+//!
 //! Sentinels: the generator puts a fresh `S…E` string at every position it regards as secret
 //! (type-directed, GraphQL scoping rules) and `P…` strings elsewhere; the judge recomputes the
 //! secret positions from SCHEMA/SECRETS with its own spec and does not rely on the letters.
@@ -61,6 +69,100 @@ struct Cred {
     ok: Option<bool>,
 }
 
+// ---- nested families added for the "shallow secret check" gap: input types WITHOUT a secret
+// field of their own (Box3, Box2, LoginRequest, Chain, Either) enclosing types WITH secret
+// fields (Deep, Inner, Cred, Tree, Mixed, Pick) to depth 4-5, lists and lists of lists of
+// them, oneof input objects, secret fields whose own type is a (secret-free) input object,
+// recursive input types
+
+/// secret-free; below it `Deep` (own secret) and the oneof `Pick`
+#[derive(InputObject)]
+struct Box3 {
+    label: Option<String>,
+    deep: Option<Deep>,
+    deeps: Option<Vec<Deep>>,
+    pick: Option<Pick>,
+}
+
+/// secret-free; below it a secret-free and a secret-carrying type, lists and a list of lists
+#[derive(InputObject)]
+struct Box2 {
+    client: Option<String>,
+    box3: Option<Box3>,
+    inner: Option<Inner>,
+    box3s: Option<Vec<Box3>>,
+    grid: Option<Vec<Vec<Box3>>>,
+}
+
+/// secret-free top: `LoginRequest { clientId, credentials: Cred { user, pass(secret) … } … }`
+#[derive(InputObject)]
+struct LoginRequest {
+    client_id: Option<String>,
+    credentials: Option<Cred>,
+    box2: Option<Box2>,
+    boxes: Option<Vec<Box2>>,
+    chain: Option<Chain>,
+    either: Option<Either>,
+}
+
+/// own secrets next to secret-free children; secret fields whose type is a secret-free input
+/// object (whole subtree redacted)
+#[derive(InputObject)]
+struct Mixed {
+    name: Option<String>,
+    #[graphql(secret)]
+    otp: Option<String>,
+    box2: Option<Box2>,
+    #[graphql(secret)]
+    sealed_box: Option<Box2>,
+    #[graphql(secret)]
+    sealed_boxes: Option<Vec<Box3>>,
+    req: Option<LoginRequest>,
+}
+
+/// recursive, secret-free
+#[derive(InputObject)]
+struct Chain {
+    name: Option<String>,
+    next: Option<Box<Chain>>,
+    fork: Option<Vec<Chain>>,
+    leaf: Option<Deep>,
+    tree: Option<Tree>,
+}
+
+/// recursive with own secrets; alternates with the secret-free `Chain`
+#[derive(InputObject)]
+struct Tree {
+    label: Option<String>,
+    #[graphql(secret)]
+    key: Option<String>,
+    child: Option<Box<Tree>>,
+    children: Option<Vec<Tree>>,
+    chain: Option<Box<Chain>>,
+    #[graphql(secret)]
+    vault: Option<Box<Tree>>,
+}
+
+/// oneof with secret variants
+#[derive(OneofObject)]
+enum Pick {
+    Plain(String),
+    #[graphql(secret)]
+    Token(String),
+    Deep(Deep),
+    #[graphql(secret)]
+    Sealed(Deep),
+    Chain(Chain),
+}
+
+/// oneof without a secret variant of its own
+#[derive(OneofObject)]
+enum Either {
+    Text(String),
+    Deep(Deep),
+    Box3(Box3),
+}
+
 #[derive(Interface)]
 #[graphql(
     field(name = "id", ty = "i32"),
@@ -69,7 +171,8 @@ struct Cred {
         ty = "bool",
         arg(name = "key", ty = "Option<String>", secret),
         arg(name = "plain", ty = "Option<String>"),
-        arg(name = "cred", ty = "Option<Cred>")
+        arg(name = "cred", ty = "Option<Cred>"),
+        arg(name = "req", ty = "Option<LoginRequest>")
     )
 )]
 enum Node {
@@ -93,10 +196,10 @@ impl User {
     async fn name(&self) -> String {
         "n".into()
     }
-    async fn verify(&self, key: Option<String>, plain: Option<String>, cred: Option<Cred>) -> bool {
+    async fn verify(&self, key: Option<String>, plain: Option<String>, cred: Option<Cred>, req: Option<LoginRequest>) -> bool {
         true
     }
-    async fn auth(&self, #[graphql(secret)] password: Option<String>, cred: Option<Cred>, mode: Option<String>) -> bool {
+    async fn auth(&self, #[graphql(secret)] password: Option<String>, cred: Option<Cred>, mode: Option<String>, box2: Option<Box2>) -> bool {
         true
     }
     async fn friends(&self, first: Option<i32>, #[graphql(secret)] tokens: Option<Vec<String>>) -> Vec<User> {
@@ -114,7 +217,7 @@ impl Session {
     async fn id(&self) -> i32 {
         2
     }
-    async fn verify(&self, key: Option<String>, plain: Option<String>, cred: Option<Cred>) -> bool {
+    async fn verify(&self, key: Option<String>, plain: Option<String>, cred: Option<Cred>, req: Option<LoginRequest>) -> bool {
         true
     }
     async fn refresh(&self, #[graphql(secret)] token: Option<String>, hint: Option<String>) -> Session {
@@ -138,6 +241,20 @@ impl Query {
         #[graphql(secret)] vault: Option<Cred>,
     ) -> Session {
         Session
+    }
+    async fn signin(
+        &self,
+        req: Option<LoginRequest>,
+        reqs: Option<Vec<LoginRequest>>,
+        mixed: Option<Mixed>,
+        #[graphql(secret)] sealed: Option<LoginRequest>,
+        either: Option<Either>,
+        pick: Option<Pick>,
+    ) -> Session {
+        Session
+    }
+    async fn walk(&self, chain: Option<Chain>, tree: Option<Tree>, trees: Option<Vec<Vec<Tree>>>, grid: Option<Vec<Vec<Box2>>>, box3: Option<Box3>) -> User {
+        User
     }
     async fn me(&self) -> User {
         User
@@ -165,7 +282,7 @@ impl Mutation {
     ) -> bool {
         true
     }
-    async fn update(&self, cred: Option<Cred>, creds: Option<Vec<Vec<Cred>>>) -> Session {
+    async fn update(&self, cred: Option<Cred>, creds: Option<Vec<Vec<Cred>>>, mixed: Option<Mixed>, reqs: Option<Vec<Vec<LoginRequest>>>) -> Session {
         Session
     }
 }
@@ -174,7 +291,7 @@ struct Subscription;
 #[Subscription]
 #[allow(unused_variables)]
 impl Subscription {
-    async fn watch(&self, #[graphql(secret)] token: Option<String>, topic: Option<String>, cred: Option<Cred>) -> impl Stream<Item = User> {
+    async fn watch(&self, #[graphql(secret)] token: Option<String>, topic: Option<String>, cred: Option<Cred>, req: Option<LoginRequest>) -> impl Stream<Item = User> {
         stream::iter(vec![User])
     }
 }
@@ -268,6 +385,8 @@ struct TypeD {
     kind: &'static str,
     fields: Vec<FieldD>,
     members: Vec<String>,
+    /// `@oneOf` input object (the wire format says `input` for both kinds)
+    oneof: bool,
 }
 struct SchemaD {
     types: Vec<TypeD>,
@@ -302,16 +421,16 @@ impl SchemaD {
                     .collect::<Vec<_>>()
             };
             let td = match t {
-                MetaType::Scalar { .. } => TypeD { name: name.clone(), kind: "scalar", fields: vec![], members: vec![] },
-                MetaType::Enum { .. } => TypeD { name: name.clone(), kind: "enum", fields: vec![], members: vec![] },
-                MetaType::Object { fields, .. } => TypeD { name: name.clone(), kind: "object", fields: out_fields(fields), members: vec![] },
-                MetaType::Interface { fields, .. } => TypeD { name: name.clone(), kind: "interface", fields: out_fields(fields), members: vec![] },
+                MetaType::Scalar { .. } => TypeD { name: name.clone(), kind: "scalar", fields: vec![], members: vec![], oneof: false },
+                MetaType::Enum { .. } => TypeD { name: name.clone(), kind: "enum", fields: vec![], members: vec![], oneof: false },
+                MetaType::Object { fields, .. } => TypeD { name: name.clone(), kind: "object", fields: out_fields(fields), members: vec![], oneof: false },
+                MetaType::Interface { fields, .. } => TypeD { name: name.clone(), kind: "interface", fields: out_fields(fields), members: vec![], oneof: false },
                 MetaType::Union { possible_types, .. } => {
                     let mut ms: Vec<String> = possible_types.iter().cloned().collect();
                     ms.sort();
-                    TypeD { name: name.clone(), kind: "union", fields: vec![], members: ms }
+                    TypeD { name: name.clone(), kind: "union", fields: vec![], members: ms, oneof: false }
                 }
-                MetaType::InputObject { input_fields, .. } => TypeD {
+                MetaType::InputObject { input_fields, oneof, .. } => TypeD {
                     name: name.clone(),
                     kind: "input",
                     fields: input_fields
@@ -319,6 +438,7 @@ impl SchemaD {
                         .map(|f| FieldD { name: f.name.clone(), ty: TRef::parse(&f.ty), secret: f.is_secret, args: vec![] })
                         .collect(),
                     members: vec![],
+                    oneof: *oneof,
                 },
             };
             types.push(td);
@@ -412,6 +532,11 @@ struct Gen<'a> {
     /// the value being generated belongs to an argument of a field that is not in scope: nothing
     /// is known about the position, nothing in it is secret
     untyped: bool,
+    /// the input-object types enclosing the value being generated, outermost first: does the
+    /// type declare a secret field of its own?
+    encl: Vec<bool>,
+    /// > 0 while the items of a list are being generated
+    in_list: usize,
 }
 
 const PLAIN_TAILS: [&str; 6] = ["", "", "", " \"q\"", "\\b", "\u{e9}\u{4e16}"];
@@ -442,9 +567,13 @@ impl<'a> Gen<'a> {
                     // list input coercion: a single item
                     return self.konst(inner, secret, depth);
                 }
-                let n = self.rng.below(4);
+                let of_objects = self.sd.find(inner.base()).map(|t| t.kind == "input").unwrap_or(false);
+                let n = if of_objects && depth >= 2 { self.rng.below(3) } else { self.rng.below(4) };
                 self.dist.hit(if secret { "list_in_secret" } else { "list_plain" });
-                node("list", (0..n).map(|_| self.konst(inner, secret, depth)).collect())
+                self.in_list += 1;
+                let items = (0..n).map(|_| self.konst(inner, secret, depth)).collect();
+                self.in_list -= 1;
+                node("list", items)
             }
             TRef::NonNull(_) => unreachable!(),
             TRef::Named(n) => match n.as_str() {
@@ -461,17 +590,52 @@ impl<'a> Gen<'a> {
                         Some(t) if t.kind == "input" => {
                             let mut fs: Vec<&FieldD> = t.fields.iter().collect();
                             self.rng.shuffle(&mut fs);
+                            if t.oneof {
+                                self.dist.hit("oneof_object");
+                                if self.rng.chance(4, 5) {
+                                    // well-formed: exactly one member (a scalar one when no depth is left)
+                                    let keep: Vec<&FieldD> =
+                                        fs.iter().copied().filter(|f| depth > 0 || !sd.find(f.ty.base()).map(|t| t.kind == "input").unwrap_or(false)).take(1).collect();
+                                    fs = keep;
+                                }
+                            }
+                            let forced = t.oneof && fs.len() == 1;
+                            let own_secret = t.fields.iter().any(|f| f.secret);
+                            self.encl.push(own_secret);
                             let mut out = vec![];
                             for f in fs {
-                                let p = if depth == 0 { 4 } else { 2 };
                                 let composite = sd.find(f.ty.base()).map(|t| t.kind == "input").unwrap_or(false);
+                                // the more levels remain, the fewer object-valued fields per object
+                                let p = if depth == 0 { 4 } else if composite && depth >= 3 { 4 } else if composite { 3 } else { 2 };
                                 if composite && depth == 0 {
                                     continue;
                                 }
-                                if self.rng.chance(1, p) || (f.secret && self.rng.chance(1, 2)) {
+                                if forced || self.rng.chance(1, p) || (f.secret && self.rng.chance(1, if composite { 4 } else { 2 })) {
                                     let sec = secret || f.secret;
                                     if f.secret {
                                         self.dist.hit(if composite { "secret_input_field_object" } else { "secret_input_field" });
+                                        if !secret && !self.untyped {
+                                            // a secret field met outside any secret: at which depth, below which kinds of types
+                                            let d = self.encl.len();
+                                            self.dist.hit(&format!("secret_field_at_depth_{d}"));
+                                            let anc = &self.encl[..d - 1];
+                                            if anc.iter().any(|own| !*own) {
+                                                self.dist.hit("secret_field_below_secretfree_type");
+                                                self.dist.hit(&format!("secret_field_below_secretfree_type_depth_{d}"));
+                                                if self.in_list > 0 {
+                                                    self.dist.hit("secret_field_below_secretfree_type_in_list");
+                                                }
+                                                if self.in_const > 0 {
+                                                    self.dist.hit("secret_field_below_secretfree_type_in_variable_or_default");
+                                                }
+                                            }
+                                            if !anc.is_empty() && anc.iter().all(|own| !*own) {
+                                                self.dist.hit("secret_field_below_only_secretfree_types");
+                                            }
+                                            if t.oneof {
+                                                self.dist.hit("secret_oneof_member");
+                                            }
+                                        }
                                     }
                                     let v = if depth > 0 && self.in_const == 0 && self.rng.chance(1, 7) { self.variable(&f.ty, sec, depth - 1) } else { self.konst(&f.ty, sec, depth.saturating_sub(1)) };
                                     out.push(list(vec![st(f.name.clone()), v]));
@@ -483,7 +647,9 @@ impl<'a> Gen<'a> {
                                 out.push(list(vec![st("extra"), st(s)]));
                                 self.dist.hit("unknown_input_key");
                             }
+                            self.encl.pop();
                             self.dist.hit(if secret { "object_in_secret" } else { "object_plain" });
+                            self.dist.hit(&format!("object_nesting_{}", self.encl.len() + 1));
                             node("obj", out)
                         }
                         _ => {
@@ -520,7 +686,14 @@ impl<'a> Gen<'a> {
     }
 
     fn value(&mut self, ty: &TRef, secret: bool) -> Sexp {
-        if self.rng.chance(1, 5) { self.variable(ty, secret, 2) } else { self.konst(ty, secret, 2) }
+        // levels of input objects below the outermost one: 2 (as before), 3 or 4
+        let depth = match self.rng.below(20) {
+            0..=7 => 2,
+            8..=14 => 3,
+            _ => 4,
+        };
+        debug_assert!(self.encl.is_empty() && self.in_list == 0);
+        if self.rng.chance(1, 5) { self.variable(ty, secret, depth) } else { self.konst(ty, secret, depth) }
     }
 
     fn composite_names(&self) -> Vec<String> {
@@ -710,7 +883,7 @@ fn gen_case(rng: &mut Rng, i: usize, _o: &Opts, dist: &mut Dist) -> Sexp {
             dist.hit("witness");
             return node("c21", vec![sd.to_sexp(), sd.secrets_sexp(), doc, vars]);
         }
-        let mut g = Gen { sd, rng, dist, next_s: 0, next_p: 0, next_v: 0, vardefs: vec![], vars: vec![], frag_names: vec![], in_const: 0, untyped: false };
+        let mut g = Gen { sd, rng, dist, next_s: 0, next_p: 0, next_v: 0, vardefs: vec![], vars: vec![], frag_names: vec![], in_const: 0, untyped: false, encl: vec![], in_list: 0 };
         let nfrag = if g.rng.chance(1, 2) { 0 } else { 1 + g.rng.below(3) };
         g.frag_names = (0..nfrag).map(|k| format!("F{k}")).collect();
         g.dist.hit(&format!("fragments_{nfrag}"));
@@ -993,7 +1166,7 @@ fn log_of(doc: &Sexp, vars: &Sexp) -> Sexp {
 
 /// the `#[graphql(secret)]` attributes written in the schema above, by hand: the registry must
 /// carry exactly these flags (derive/src/{object,input_object,interface,subscription}.rs)
-const EXPECTED_SECRETS: &str = r#"(secrets (args ("Mutation" "setPassword" "new") ("Mutation" "setPassword" "old") ("Node" "verify" "key") ("Query" "login" "token") ("Query" "login" "vault") ("Query" "node" "key") ("Session" "refresh" "token") ("Subscription" "watch" "token") ("User" "auth" "password") ("User" "friends" "tokens")) (inputs ("Cred" "pass") ("Cred" "keys") ("Deep" "code") ("Inner" "pin") ("Inner" "sealed")))"#;
+const EXPECTED_SECRETS: &str = r#"(secrets (args ("Mutation" "setPassword" "new") ("Mutation" "setPassword" "old") ("Node" "verify" "key") ("Query" "login" "token") ("Query" "login" "vault") ("Query" "signin" "sealed") ("Query" "node" "key") ("Session" "refresh" "token") ("Subscription" "watch" "token") ("User" "auth" "password") ("User" "friends" "tokens")) (inputs ("Cred" "pass") ("Cred" "keys") ("Deep" "code") ("Inner" "pin") ("Inner" "sealed") ("Mixed" "otp") ("Mixed" "sealedBox") ("Mixed" "sealedBoxes") ("Pick" "token") ("Pick" "sealed") ("Tree" "key") ("Tree" "vault")))"#;
 
 fn run(case: &Sexp, dist: &mut Dist) -> Sexp {
     let a = case.args();
